@@ -792,6 +792,17 @@ pub fn parse_adt_with_metadata<R: Read + Seek>(reader: &mut R) -> Result<(Parsed
     let discovery = discover_chunks(reader)?;
     let discovery_duration = discovery_start.elapsed();
 
+    // Every ADT file (root or split) starts with its version chunk
+    let starts_with_mver = discovery
+        .chunks
+        .get(&crate::chunk_id::ChunkId::MVER)
+        .is_some_and(|locations| locations.iter().any(|l| l.offset == 0));
+    if !starts_with_mver {
+        return Err(crate::error::AdtError::MissingRequiredChunk(
+            crate::chunk_id::ChunkId::MVER,
+        ));
+    }
+
     // Detect version and file type
     let version = AdtVersion::from_discovery(&discovery);
     let file_type = AdtFileType::from_discovery(&discovery);
